@@ -308,6 +308,69 @@ def extra_c14(ck: Check, tier: str, rng) -> None:
                                  {"check": "worker-c14", "scenario": allsc[i], "rejected_at": pos, "context": explain(traces[i], pos, 14)})
 
 
+def redis_part_c03(ck: Check, tier: str, rng) -> None:
+    """C03 on the Redis broker (fake server): stop requests and *process death* at the loop steps where something
+    happens; after a death other clients connect/disconnect (maintenance) before and after the execution timeout and a
+    healthy consumer drains the queue: in-flight messages come back, not before their timeout, nothing stays in flight"""
+    chk = ["holder", "content", "stop", "reclaim"]
+    shapes = [
+        [{"id": "a", "actor": "job", "script": ["ok"], "dur_ms": [400], "timeout_s": 3}],
+        [{"id": "a", "actor": "job", "script": ["ok"], "dur_ms": [300], "timeout_s": 2, "at_ms": 900},
+         {"id": "b", "actor": "job", "script": ["raise", "ok"], "dur_ms": [200], "retries": 1, "timeout_s": 2}],
+        [{"id": f"m{k}", "actor": "job", "script": ["ok"], "dur_ms": [250], "timeout_s": 3} for k in range(3)],
+    ]
+    scs = []
+    for jobs in shapes:
+        for tl in (1, 2):
+            scs.append(default_scenario(jobs=copy.deepcopy(jobs), actors={"job": {"policy": ["const", 0]}}, backend="redis", seed=rng.randint(0, 999),
+                                        worker={"tasks_limit": tl, "messages_limit": 0, "grace_s": 0.2}, horizon_ms=4000))
+    with pool() as ex:
+        base = list(ex.map(_record, [(sc, chk, []) for sc in scs], chunksize=1))
+        inj = []
+        for sc, (_, info) in zip(scs, base):
+            steps = info["run_steps"] or 0
+            hot = sorted({s + d for s in info["event_steps"] for d in (-1, 0, 1) if 1 <= s + d <= steps})
+            cap = {"quick": 30, "thorough": 400}[tier]
+            for kind in ("kill", "stop"):
+                pts = hot if len(hot) <= cap else sorted(rng.sample(hot, cap))
+                for k in pts:
+                    sc2 = copy.deepcopy(sc)
+                    sc2[kind] = {"at_step": k}
+                    inj.append(sc2)
+        injected = list(ex.map(_record, [(sc, chk, []) for sc in inj], chunksize=8))
+    allsc = scs + inj
+    traces = [t for (t, _) in base + injected]
+    v = tlc.validate_traces("Trace_Worker", "Trace_Worker.cfg", traces)
+    ck.add_tlc(v.result, f"Trace_Worker on the Redis fake: {len(traces)} runs with stop / process-death injection (clauses {chk})")
+    ck.traces += len(traces)
+    ck.notes["redis_runs"] = len(traces)
+    ck.notes["redis_process_deaths"] = sum(1 for s in inj if "kill" in s)
+    for sc, (t, info) in zip(allsc, base + injected):
+        ck.case("redis" + str(hash(str([(e.get("e"), e.get("op"), e.get("i"), e.get("v"), e.get("st"), e.get("out")) for e in t]))),
+                nontrivial=bool(info["exec_count"]))
+    ck.sample({"scenario": inj[0] if inj else scs[0], "note": "Redis fake, process death / stop injected"})
+    if v.rejected:
+        idx = sorted(v.rejected)
+        kfs = [k for k in known_for("C03") if k.get("backend") == "redis" and k.get("deviations")]
+        kd = sorted({d for k in kfs for d in k["deviations"]})
+        unexplained = idx
+        if kd:
+            dv = [[dict(traces[i][0], devs=kd)] + traces[i][1:] for i in idx]
+            vd = tlc.validate_traces("Trace_Worker", "Trace_Worker.cfg", dv)
+            ck.add_tlc(vd.result, f"re-validation of rejected Redis runs with deviations {kd}")
+            unexplained = [idx[k] for k in vd.rejected]
+            for kf in kfs:
+                one = [[dict(traces[idx[k]][0], devs=kf["deviations"])] + traces[idx[k]][1:] for k in vd.accepted]
+                if one:
+                    v1 = tlc.validate_traces("Trace_Worker", "Trace_Worker.cfg", one)
+                    for _ in (v1.accepted or ([0] if len(kfs) == 1 else [])):
+                        ck.known(kf["id"])
+        for i in unexplained[:15]:
+            pos = v.rejected[i]
+            ck.violation(f"Redis worker run rejected at event {pos}: {traces[i][pos - 1] if pos <= len(traces[i]) else 'end'}",
+                         {"check": "worker", "scenario": allsc[i], "rejected_at": pos, "context": explain(traces[i], pos, 14)})
+
+
 FAMS = {"C13": fam_c13, "C02": fam_c02, "C03": fam_c03, "C04": fam_c04, "C06": fam_c06, "C09": fam_c09, "C10": fam_c10, "C11": fam_c11}
 
 
@@ -420,6 +483,9 @@ def run(pid: str, tier: str, seed: int, *, replay: dict | None = None) -> int:
             print(f"... and {len(unexplained) - 25} more rejected runs")
     if replay is None:
         selftest(ck, traces, v)
+        if pid == "C03":
+            redis_part_c03(ck, tier, rng)
+            lap("Redis stop / process-death runs validated")
         if pid == "C11":
             from checks import router_part
             router_part.run_part(ck, tier, rng)
